@@ -1,4 +1,5 @@
 """C16 - FST translation is the transduction relation; FST operations compose relations."""
+import random
 from vf import core, extract
 from vf.gen import fst as gfst
 from vf.gen import fa as gfa
@@ -193,9 +194,12 @@ def plan(tier, rng, sl, nslices, stats):
         c = {"a": a, "b": b}
         if i % 5 == 1:
             c["nested"] = True
+            c["expr_seed"] = rng.randrange(1 << 30)
             a["trans"] = a["trans"][:3]
             if b:
                 b["trans"] = b["trans"][:3]
+        if i % 7 == 3:
+            c["a"] = a = gfst.hub_case(rng)
         if i % 4 == 0:
             c["fa"] = gfa.random_case(rng, max_states=3, max_syms=4, vcs=["int", "str", "binary"])
         yield c
@@ -234,6 +238,30 @@ def run_case(c, stats):
                         if ok4:
                             results.append(s3)
                             call(s3.union, s2)
+            # star of a union of stars: several hub states that are both initial and final
+            oka, sa = call(A.kleene_star)
+            okb, sb = call(B.kleene_star)
+            if oka and okb:
+                oku, u = call(sa.union, sb)
+                if oku:
+                    okr, r6 = call(u.kleene_star)
+                    if okr:
+                        results.append(r6)
+            # random expressions over the operands and earlier results, e.g. (A* | B*)*, (A B)* | A
+            rng = random.Random(c.get("expr_seed", 0))
+            pool = [A, B]
+            for _ in range(rng.randint(2, 4)):
+                small = [x for x in pool if len(x.states) <= 8]
+                if not small:
+                    break
+                op = rng.choice(["star", "star", "union", "concat"])
+                x = rng.choice(small)
+                y = rng.choice(small)
+                ok5, r5 = call(x.kleene_star) if op == "star" else call(x.union, y) if op == "union" \
+                    else call(x.concatenate, y)
+                if ok5:
+                    pool.append(r5)
+            results.extend(pool[-2:] if len(pool) > 3 else [])
         # the library's own translate on the results (second route)
         with core.oracle_mode():
             for r in results[-4:]:
